@@ -167,9 +167,8 @@ PROPS = {
      'default_twins': ['c05.ops'],
      'sweep_twins': ['c05.ops'],
      'kani': [],
-     'not_covered': ['MemRegion::mark_all_values_as_top (BTreeMap::values_mut() iterator of &mut T, then clear_top_values)',
-                     'MemRegion::clear_top_values (BTreeMap::retain with a closure)',
-                     'MemRegion::values_mut / iter / values (return std iterator types; values_mut lets the caller break the invariant until clear_top_values is called)',
+     'not_covered': ['MemRegion::values_mut (returns btree_map::ValuesMut: no vstd specification; clear_top_values states what re-establishes the invariant afterwards)',
+                     'MemRegion::values: partial contract only (one item per cell, every stored value occurs; order / nothing-else not stated)',
                      'ToJsonCompact for MemRegion::to_json_compact (iterator chain into serde_json)',
                      'AbstractDomain::merge_with (trait default method, not used by mem_region.rs)'],
      'assumptions': ['HYPOTHESIS on T (mr_domain_ok): bytesize() <= 2^25 for every value (so `u64::from(bytesize) as i64` is exact)',
@@ -203,7 +202,7 @@ PROPS = {
     "C03": {
         "units": ["bitvector", "interval_arith", "interval_domain", "mem_region", "taint", "data_domain", "domain_map"],
         "level_text": "BitvectorDomain::merge, Interval::signed_merge, IntervalDomain::{signed_merge, signed_merge_and_widen, merge} are extracted verbatim and verified: the merge is well-formed, represents every value represented by either input, and is stable -- when one input's value set contains the other's, the result represents exactly that input (for the widening merge: no widening happens, proved via canonicity of intervals), for every pair of values of the same width (<= 8 bytes for the stability clauses). MemRegion::merge/merge_inner is verified against the property's cell rule (unit mem_region, see C05). Taint::{merge, merge_with} are verified: tainted iff either input is, stable, idempotent, merge_with agrees with merge. DataDomain<T>::merge (pointer/value sets; with is_top, bytesize, new_top, top, is_empty, new_empty, From<T>) is extracted verbatim and verified for every value domain T satisfying the listed hypotheses and any number of targets: the whole result is stated (targets = union with merged offsets for common targets, absolute part, Top flag, size) and from it: represents every concrete value (absolute bitvector or target+offset) represented by either input; stable when the other input is already absorbed; merging with itself represents the same set. DomainMap<K,V,S> (keyed maps): the three strategies' merge_map_with (Union, Intersect, MergeTop), the trait default merge_map and DomainMap::{merge, merge_with, is_top, new, default, from, deref, deref_mut} are extracted verbatim and verified for every key type, value domain and number of keys: the whole resulting map is stated per strategy, DomainMap::merge returns self when the maps are equal and otherwise exactly the strategy's result (no other shortcut is accepted), merge_with agrees with merge; under each strategy's reading of a missing key (bottom / maximal Top / default Top) every key/value pair represented by either input is represented by the merge, merging with something already absorbed does not enlarge the represented set, and merging a map with itself returns it.",
-        "level_note": "DomainMap part: relative to hypotheses on V (merge over-approximates / is stable under V's merge precondition; clone and == are structural; V::merge_with leaves merge(x,y) in x; Intersect stability: is_top() values represent everything; MergeTop: all is_top() values represent the same default set and top() is_top()) -- satisfiable (toy domain in the unit), instantiation for IntervalDomain/DataDomain/Taint not performed -- and on K (lawful Ord, identity clone); trusted: R9 `entry(k).and_modify(F).or_insert_with(G)` -> contains_key/get_mut/insert and `retain(F)` -> loop over the keys with get_mut/remove (all closure texts kept verbatim and verified), `self != other` (&mut Self vs &Self) -> `*self != *other`, shim verif_dm_keys, derive(PartialEq, Clone) of DomainMap restated. Observations: MergeTopStrategy re-inserts a common key whose merged value is Top as merge(top(b), b) when that is not Top (its doc comment says removed; unreachable for DataDomain; C03 is proved for the code's rule); DomainMap::is_top is true for the empty map also under the Union reading where the empty map is the least element. Not covered: the trait default AbstractDomain::merge_with (compares &mut Self with &Self through core's reference PartialEq impl, no vstd spec). The claim is for the bitvector, interval, taint, pointer/value-set (DataDomain) and memory-region kinds. DataDomain: relative to hypotheses on T (merge over-approximates / is stable / clone is identity / keeps byte size, under T's own merge precondition) -- exactly the clauses proved for IntervalDomain in unit interval_domain, but the instantiation is not performed; trusted: one R9 target for `entry(k).and_modify(|o| *o = o.merge(x)).or_insert_with(|| x.clone())` which swallows the two closures (a changed closure gives undecided), vstd BTreeMap specs under obeys_cmp::<AbstractIdentifier>, opaque AbstractIdentifier with identity clone, restated traits. Widening needs the machine-arithmetic side conditions merge_span <= i64::MAX when the merged stride is >= 2 and widening_delay <= i64::MAX (8-byte values only). Observation outside the quantifier: Interval::signed_merge is not stable for widths above 64 bit (start distance >= 2^64 resets the stride to 1).",
+        "level_note": "DomainMap part: relative to hypotheses on V (merge over-approximates / is stable under V's merge precondition; clone and == are structural; V::merge_with leaves merge(x,y) in x; Intersect stability: is_top() values represent everything; MergeTop: all is_top() values represent the same default set and top() is_top()) -- satisfiable (toy domain in the unit), instantiation for IntervalDomain/DataDomain/Taint not performed -- and on K (lawful Ord, identity clone); trusted: R9 `entry(k).and_modify(F).or_insert_with(G)` -> contains_key/get_mut/insert and `retain(F)` -> loop over the keys with get_mut/remove (all closure texts kept verbatim and verified), `self != other` (&mut Self vs &Self) -> `*self != *other`, shim verif_dm_keys, derive(PartialEq, Clone) of DomainMap restated. Observations: MergeTopStrategy re-inserts a common key whose merged value is Top as merge(top(b), b) when that is not Top (its doc comment says removed; unreachable for DataDomain; C03 is proved for the code's rule); DomainMap::is_top is true for the empty map also under the Union reading where the empty map is the least element. Not covered: the trait default AbstractDomain::merge_with (compares &mut Self with &Self through core's reference PartialEq impl, no vstd spec). The claim is for the bitvector, interval, taint, pointer/value-set (DataDomain) and memory-region kinds. DataDomain: relative to hypotheses on T (merge over-approximates / is stable / clone is identity / keeps byte size, under T's own merge precondition) -- exactly the clauses proved for IntervalDomain in unit interval_domain, but the instantiation is not performed; trusted: R9 `entry(k).and_modify(F).or_insert_with(G)` -> contains_key/get_mut/insert with BOTH closure texts kept verbatim and verified under R10 headers (no shim function), vstd BTreeMap specs under obeys_cmp::<AbstractIdentifier>, opaque AbstractIdentifier with identity clone, restated traits. Widening needs the machine-arithmetic side conditions merge_span <= i64::MAX when the merged stride is >= 2 and widening_delay <= i64::MAX (8-byte values only). Observation outside the quantifier: Interval::signed_merge is not stable for widths above 64 bit (start distance >= 2^64 resets the stride to 1).",
         "design_ref": "DESIGN.md section 3 (C03)",
         "default_twins": ["c03.interval_merge", "c03.domain_merge", "c03.bitvector_merge"],
         "sweep_twins": ["c03.interval_merge", "c03.domain_merge", "c03.bitvector_merge"],
